@@ -61,6 +61,14 @@ Theorem C05_join_with_members_forks_refuted :
   pristine mem_new = true /\ m_term (join_boot true true [1; 2; 3] mem_new) 3 = Ok 1 /\ m_term group_log_12 3 = Ok 2 /\
   h_commit (m_hard (join_boot true true [1; 2; 3] mem_new)) = 3 /\ ~ committed_agrees (join_boot true true [1; 2; 3] mem_new) group_log_12.
 Proof. exact join_with_members_forks_refuted. Qed.
+(* the recorded finding: the allocator's watch path hands the boot rule the catalogue's current replica list; for a
+   replica that was added to a running group and whose store is still pristine the guarded rule bootstraps - the same
+   fork, reached without any change to partition.addNode (harness: C05 prologue 7; known_findings.json) *)
+Theorem C05_pristine_listed_replica_forks_refuted :
+  boot_rule guarded_now [1; 2; 3] mem_new = BStart /\
+  after_boot (boot_rule guarded_now [1; 2; 3] mem_new) [1; 2; 3] mem_new = join_boot true true [1; 2; 3] mem_new /\
+  ~ committed_agrees (after_boot (boot_rule guarded_now [1; 2; 3] mem_new) [1; 2; 3] mem_new) group_log_12.
+Proof. split; [reflexivity|split; [reflexivity|exact (proj2 (proj2 (proj2 (proj2 join_with_members_forks_refuted))))]]. Qed.
 (* regression: the unguarded rule *)
 Theorem C05_reboot_forks_refuted :
   m_hard (after_boot (boot_rule false [1] used_store) [1] used_store) = {| h_term := 1; h_vote := 0; h_commit := 6 |} /\
